@@ -20,37 +20,38 @@ def common_assumptions(run):
 
 def trees_pipeline(run, prop, observe=False):
     """Tree-driven part shared by C05/C07/C09/C11 (+C06/C10/C01 on the generated texts)."""
+    prints = prop in ("C01", "C12")     # the printer model (Printers.tla) is compared with String() / GoString() on these runs
     # the leaf zoo: every leaf form (incl. repeated values, equal bounds, empty strings) under every single operator
     casesz, gz = stage_gen_trees(run, ALL_KINDS, 1, ws=1, muts=1, name="gen_zoo")
-    resz, _, _ = stage_groups(run, casesz, name="parse_zoo")
+    resz, _, _ = stage_groups(run, casesz, name="parse_zoo", prints=prints)
     stage_judge_trees(run, resz, prop, casesz, name="judge_zoo")
     # field groups  w:( E )  over every tree of depth <= 2 (the group is one more unary operator)
     casesg, gg = stage_gen_trees(run, ["bare", "feq", "FGROUP"], 2, ws=1, muts=1 if prop in ("C06", "C10", "C11", "C01") else 0, name="gen_fgroup")
-    resg, _, _ = stage_groups(run, casesg, name="parse_fgroup")
+    resg, _, _ = stage_groups(run, casesg, name="parse_fgroup", prints=prints)
     stage_judge_trees(run, resg, prop, casesg, name="judge_fgroup")
     casesg, gg = stage_gen_trees(run, ["bare", "feq", "FGROUP"], 3, ws=1, sample=1000 if run.tier == "quick" else 20000, name="gen_fgroup3")
-    resg, _, _ = stage_groups(run, casesg, name="parse_fgroup3")
+    resg, _, _ = stage_groups(run, casesg, name="parse_fgroup3", prints=prints)
     stage_judge_trees(run, resg, prop, casesg, name="judge_fgroup3")
     if run.tier == "quick":
         cases, g = stage_gen_trees(run, QUICK_KINDS + (["bareint"] if prop == "C07" else []), 2, ws=1 if prop != "C07" else 0,
                                    muts=2 if prop in ("C06", "C10", "C11", "C01") else 0)
-        res, tr, s = stage_groups(run, cases, trace_every=25)
+        res, tr, s = stage_groups(run, cases, trace_every=25, prints=prints)
         if tr:
             stage_trace(run, tr, name="trace_trees")
         stage_judge_trees(run, res, prop, cases)
         # deeper trees, sampled with the seeded generator
         cases2, g2 = stage_gen_trees(run, DEEP_KINDS + ["FGROUP"], 3, ws=1, sample=1500, muts=1, name="gen_deep")
-        res2, _, _ = stage_groups(run, cases2, name="parse_deep")
+        res2, _, _ = stage_groups(run, cases2, name="parse_deep", prints=prints)
         stage_judge_trees(run, res2, prop, cases2, name="judge_deep")
     else:
         cases, g = stage_gen_trees(run, THOROUGH_KINDS, 2, ws=2, muts=2)
-        res, tr, s = stage_groups(run, cases, trace_every=20)
+        res, tr, s = stage_groups(run, cases, trace_every=20, prints=prints)
         if tr:
             stage_trace(run, tr, name="trace_trees")
         stage_judge_trees(run, res, prop, cases)
         for i, (depth, n) in enumerate([(3, 20000), (4, 10000)]):
             cases2, g2 = stage_gen_trees(run, DEEP_KINDS + ["FGROUP"], depth, ws=2, sample=n, muts=2, name="gen_deep%d" % depth)
-            res2, tr2, _ = stage_groups(run, cases2, trace_every=40, name="parse_deep%d" % depth)
+            res2, tr2, _ = stage_groups(run, cases2, trace_every=40, name="parse_deep%d" % depth, prints=prints)
             if tr2:
                 stage_trace(run, tr2, name="trace_deep%d" % depth)
             stage_judge_trees(run, res2, prop, cases2, name="judge_deep%d" % depth)
